@@ -81,12 +81,29 @@ func newTok() string {
 
 // Run executes the scripts concurrently against DMap dm and records the history.
 func (r *Recorder) Run(dm string, scripts []Script, yield func()) {
+	r.run(dm, scripts, yield, false)
+}
+
+// RunBarrier is Run with all scripts released at the same instant (tight races on one key).
+func (r *Recorder) RunBarrier(dm string, scripts []Script) {
+	r.run(dm, scripts, nil, true)
+}
+
+func (r *Recorder) run(dm string, scripts []Script, yield func(), barrier bool) {
 	var wg sync.WaitGroup
 	start := time.Now()
+	gate := make(chan struct{})
+	if !barrier {
+		close(gate)
+	}
+	var ready sync.WaitGroup
 	for _, sc := range scripts {
 		wg.Add(1)
+		ready.Add(1)
 		go func(sc Script) {
 			defer wg.Done()
+			ready.Done()
+			<-gate
 			ctx := context.Background()
 			slots := map[int]*lockSlot{}
 			for _, st := range sc.Steps {
@@ -105,6 +122,10 @@ func (r *Recorder) Run(dm string, scripts []Script, yield func()) {
 				r.step(ctx, dm, sc, st, slots)
 			}
 		}(sc)
+	}
+	if barrier {
+		ready.Wait()
+		close(gate)
 	}
 	wg.Wait()
 }
